@@ -4,6 +4,7 @@ import (
 	"fmt"
 	"go/token"
 	"go/types"
+	"strings"
 
 	"golang.org/x/tools/go/ssa"
 )
@@ -65,6 +66,320 @@ func allocBounds(c *Ctx, rule string, ps *PanicScan, fns []*ssa.Function) {
 	if n == 0 {
 		c.OK(rule, "no make on the read path", "-", "allocation only through growing buffers")
 	}
+}
+
+// allocBudget (C05.2b): allocation that is not paid for by input. An allocation site inside a loop that does not
+// consume input on every cycle is multiplied by the loop's trip bound (derived from the integer type / origin of the
+// loop bound: a header-declared 16-bit count gives 65535); the product over all enclosing such loops must stay below
+// 16 MiB. (On the unchanged tree the worst case is the track list: 65535 declared tracks x 24-byte slice headers, doubled
+// for append growth, ~3 MiB.) Input-consuming loops count once: what they allocate per cycle is bounded by C05.2a.
+func allocBudget(c *Ctx, rule string, scope []*ssa.Function) {
+	const budget = 16 << 20
+	p := c.P
+	sizes := types.SizesFor("gc", "amd64")
+	consuming := consumingFuncs(scope)
+	inScope := map[*ssa.Function]bool{}
+	for _, f := range scope {
+		inScope[f] = true
+	}
+	sizeof := func(t types.Type) int64 {
+		defer func() { recover() }()
+		return sizes.Sizeof(t)
+	}
+	// upper bound of an integer value from its shape (-1: unknown)
+	var valueBound func(v ssa.Value, depth int) int64
+	typeMax := func(t types.Type) int64 {
+		if w, signed, ok := intTypeInfo(t); ok && !signed && w <= 16 {
+			return int64(1)<<uint(w) - 1
+		}
+		return -1
+	}
+	fieldLenBound := func(fv *types.Var) int64 {
+		best := int64(-1)
+		n := 0
+		for _, st := range p.fieldUses(fv).stores {
+			if !inScope[st.Parent()] {
+				continue
+			}
+			n++
+			ms, ok := st.Val.(*ssa.MakeSlice)
+			if !ok {
+				return -1
+			}
+			b := valueBound(ms.Len, 1)
+			if b < 0 {
+				return -1
+			}
+			if b > best {
+				best = b
+			}
+		}
+		if n == 0 {
+			return -1
+		}
+		return best
+	}
+	valueBound = func(v ssa.Value, depth int) int64 {
+		if depth > 6 {
+			return -1
+		}
+		if k, ok := constInt(v); ok {
+			return k
+		}
+		if m := typeMax(v.Type()); m >= 0 {
+			return m
+		}
+		switch x := v.(type) {
+		case *ssa.Convert:
+			return valueBound(x.X, depth+1)
+		case *ssa.ChangeType:
+			return valueBound(x.X, depth+1)
+		case *ssa.Call:
+			if b, ok := x.Call.Value.(*ssa.Builtin); ok && (b.Name() == "len" || b.Name() == "cap") && len(x.Call.Args) == 1 {
+				switch a := x.Call.Args[0].(type) {
+				case *ssa.MakeSlice:
+					return valueBound(a.Len, depth+1)
+				case *ssa.UnOp:
+					if a.Op == token.MUL {
+						if fv := fieldVar(a.X); fv != nil {
+							return fieldLenBound(fv)
+						}
+					}
+				case *ssa.Slice:
+					if al, ok := a.X.(*ssa.Alloc); ok {
+						if at, ok := al.Type().Underlying().(*types.Pointer).Elem().Underlying().(*types.Array); ok {
+							return at.Len()
+						}
+					}
+				case *ssa.Parameter:
+					// a slice parameter (variadic list): the longest list any caller in scope passes
+					fn := a.Parent()
+					idx := -1
+					for i, prm := range fn.Params {
+						if prm == a {
+							idx = i
+						}
+					}
+					best, ncall := int64(-1), 0
+					for _, caller := range scope {
+						for _, call := range calls(caller) {
+							if call.Common().StaticCallee() != fn || idx < 0 || idx >= len(call.Common().Args) {
+								continue
+							}
+							ncall++
+							arg := call.Common().Args[idx]
+							if isNilConst(arg) {
+								if best < 0 {
+									best = 0
+								}
+								continue
+							}
+							sl, ok := arg.(*ssa.Slice)
+							if !ok {
+								return -1
+							}
+							al, ok := sl.X.(*ssa.Alloc)
+							if !ok {
+								return -1
+							}
+							at, ok := al.Type().Underlying().(*types.Pointer).Elem().Underlying().(*types.Array)
+							if !ok {
+								return -1
+							}
+							if at.Len() > best {
+								best = at.Len()
+							}
+						}
+					}
+					if ncall == 0 {
+						return -1
+					}
+					return best
+				}
+			}
+		}
+		return -1
+	}
+	// trip bound of a counted loop (-1 unknown)
+	tripBound := func(l *loopInfo) int64 {
+		for b := range l.Body {
+			if len(b.Instrs) == 0 {
+				continue
+			}
+			iff, ok := b.Instrs[len(b.Instrs)-1].(*ssa.If)
+			if !ok {
+				continue
+			}
+			exits := false
+			for _, s := range b.Succs {
+				if !l.Body[s] {
+					exits = true
+				}
+			}
+			cmp, ok := iff.Cond.(*ssa.BinOp)
+			if !exits || !ok {
+				continue
+			}
+			// x = x / c or x >> k down to 0: at most one iteration per bit
+			if phi, ok := cmp.X.(*ssa.Phi); ok && (cmp.Op == token.GTR || cmp.Op == token.NEQ) {
+				if k, ok := constInt(cmp.Y); ok && k == 0 {
+					for _, e := range phi.Edges {
+						if bo, ok := e.(*ssa.BinOp); ok && bo.X == ssa.Value(phi) && (bo.Op == token.QUO || bo.Op == token.SHR) {
+							if d, ok := constInt(bo.Y); ok && ((bo.Op == token.QUO && d >= 2) || (bo.Op == token.SHR && d >= 1)) {
+								if w, _, ok := intTypeInfo(phi.Type()); ok {
+									return int64(w)
+								}
+							}
+						}
+					}
+				}
+			}
+			switch cmp.Op {
+			case token.LSS, token.LEQ, token.NEQ:
+				if bd := valueBound(cmp.Y, 0); bd >= 0 {
+					return bd + 1
+				}
+			case token.GTR, token.GEQ:
+				// counting down from an initial value: bound of the phi's initial edge
+				if phi, ok := cmp.X.(*ssa.Phi); ok {
+					for i, e := range phi.Edges {
+						if !l.Body[phi.Block().Preds[i]] {
+							if bd := valueBound(e, 0); bd >= 0 {
+								return bd + 1
+							}
+						}
+					}
+				}
+			}
+		}
+		return -1
+	}
+	// bytes allocated by one execution of an instruction (-1: unknown/unbounded, 0: none)
+	var perCall func(f *ssa.Function, depth int, seen map[*ssa.Function]bool) int64
+	siteBytes := func(in ssa.Instruction, depth int, seen map[*ssa.Function]bool) int64 {
+		switch x := in.(type) {
+		case *ssa.MakeSlice:
+			n := valueBound(x.Cap, 0)
+			if n < 0 {
+				return -1
+			}
+			return n * sizeof(x.Type().Underlying().(*types.Slice).Elem())
+		case *ssa.Alloc:
+			if x.Heap {
+				return sizeof(x.Type().Underlying().(*types.Pointer).Elem())
+			}
+		case *ssa.MakeMap, *ssa.MakeChan, *ssa.MakeClosure, *ssa.MakeInterface:
+			return 64
+		case *ssa.Call:
+			if b, ok := x.Call.Value.(*ssa.Builtin); ok {
+				if b.Name() == "append" && len(x.Call.Args) == 2 {
+					// append(s, elems...) with a literal element list: the spread operand is a fresh array of known length
+					if sl, ok := x.Call.Args[1].(*ssa.Slice); ok {
+						if al, ok := sl.X.(*ssa.Alloc); ok {
+							if at, ok := al.Type().Underlying().(*types.Pointer).Elem().Underlying().(*types.Array); ok {
+								return 2 * at.Len() * sizeof(at.Elem())
+							}
+						}
+					}
+				}
+				return 0
+			}
+			if cal := x.Call.StaticCallee(); cal != nil && InModule(cal) {
+				return perCall(cal, depth+1, seen)
+			}
+		}
+		return 0
+	}
+	memo := map[*ssa.Function]int64{}
+	perCall = func(f *ssa.Function, depth int, seen map[*ssa.Function]bool) int64 {
+		if v, ok := memo[f]; ok {
+			return v
+		}
+		if depth > 4 || seen[f] || len(f.Blocks) == 0 {
+			return 0
+		}
+		seen[f] = true
+		defer delete(seen, f)
+		if consuming[f] {
+			return 0 // paid for by input (bounded per read by C05.2a)
+		}
+		loops := naturalLoops(f)
+		var total int64
+		for _, b := range f.Blocks {
+			for _, in := range b.Instrs {
+				by := siteBytes(in, depth, seen)
+				if by == 0 {
+					continue
+				}
+				mult := int64(1)
+				for _, l := range loops {
+					if l.Body[b] {
+						tb := tripBound(l)
+						if tb < 0 || by < 0 {
+							memo[f] = -1
+							return -1
+						}
+						mult *= tb
+					}
+				}
+				if by < 0 {
+					memo[f] = -1
+					return -1
+				}
+				total += by * mult
+				if total > 1<<40 {
+					total = 1 << 40
+				}
+			}
+		}
+		memo[f] = total
+		return total
+	}
+	n := 0
+	for _, fn := range scope {
+		loops := naturalLoops(fn)
+		if len(loops) == 0 {
+			continue
+		}
+		seq := 0
+		for _, b := range fn.Blocks {
+			var encl []*loopInfo
+			for _, l := range loops {
+				if l.Body[b] && !strings.HasPrefix(classifyLoop(fn, l, consuming), "input-consuming") {
+					encl = append(encl, l)
+				}
+			}
+			if len(encl) == 0 {
+				continue
+			}
+			for _, in := range b.Instrs {
+				by := siteBytes(in, 0, map[*ssa.Function]bool{fn: true})
+				if by == 0 {
+					continue
+				}
+				seq++
+				n++
+				key := fmt.Sprintf("allocation in a loop of %s #%d", FuncName(fn), seq)
+				mult := int64(1)
+				unknown := by < 0
+				for _, l := range encl {
+					tb := tripBound(l)
+					if tb < 0 {
+						unknown = true
+					} else {
+						mult *= tb
+					}
+				}
+				pos := p.Pos(in.Pos())
+				if unknown {
+					c.Bad(rule, key, pos, "allocation inside a loop that does not consume input, and no bound for the size or the number of iterations can be derived from the types: memory is not tied to the input size")
+					continue
+				}
+				c.Check(by*mult <= budget, rule, key, pos, fmt.Sprintf("at most %d bytes x %d iterations = %d bytes ahead of input", by, mult, by*mult), fmt.Sprintf("up to %d bytes x %d iterations = %d bytes (> 16 MiB) can be allocated for a declared count before any of the data has arrived: memory is not proportional to the input", by, mult, by*mult))
+			}
+		}
+	}
+	c.Extra["alloc_sites_in_unpaid_loops"] = n
 }
 
 // missingTracksRule (C05.5): every success return of ReadFrom is dominated by the false edge of the
@@ -159,6 +474,7 @@ func checkC05(c *Ctx) {
 	ruleEventDecode(c, "", "C05.1")
 	noUnguardedAssert(c, "C05.1", readFrom)
 	allocBounds(c, "C05.2", ps, scope)
+	allocBudget(c, "C05.2", scope)
 	readDiscipline(c, "C05.3", "C05.3", "C05.3")
 	ruleVLQ(c, "", "C05.3", "")
 	loopTermination(c, "C05.4", scope)
